@@ -15,12 +15,14 @@ import (
 	"strings"
 	"time"
 
+	"crypto/x509"
 	"github.com/emersion/go-message/textproto"
 	"github.com/emersion/go-smtp"
 	"github.com/foxcpp/go-mockdns"
 	"github.com/foxcpp/go-mtasts"
 	"github.com/foxcpp/maddy/framework/buffer"
 	"github.com/foxcpp/maddy/framework/config"
+	mdns "github.com/foxcpp/maddy/framework/dns"
 	"github.com/foxcpp/maddy/framework/exterrors"
 	"github.com/foxcpp/maddy/framework/log"
 	"github.com/foxcpp/maddy/framework/module"
@@ -29,12 +31,14 @@ import (
 	"github.com/foxcpp/maddy/internal/verifsim/harness"
 	"github.com/foxcpp/maddy/internal/verifsim/simnet"
 	"github.com/foxcpp/maddy/internal/verifsim/simrt"
+	"github.com/miekg/dns"
 )
 
 type mxSpec struct {
 	host string
 	pref uint16
 	mx   *actors.ScriptedMX
+	tlsa string // none, ee-match, ee-mismatch, ta-match, unusable, servfail
 }
 
 type rmsg struct {
@@ -72,6 +76,13 @@ type world struct {
 	mxs         []*mxSpec
 	msgs        []*rmsg
 	stsFetches  int
+
+	// DNSSEC dimension
+	useDANE   bool
+	useDNSSEC bool
+	ext       bool // a DNSSEC-aware resolver is available
+	loopback  bool // ... and it is reached over loopback (its AD flags are trusted)
+	zoneAD    bool // the destination's zones are signed (resolver sets AD)
 }
 
 const destDomain = "dest.example"
@@ -86,7 +97,12 @@ func (w *world) gen() {
 	w.useSTS = s.T.Choose(st, 2) == 1
 	w.useLocal = s.T.Choose(st, 3) != 0
 	w.minTLS = []string{"none", "encrypted", "authenticated"}[s.T.Choose(st, 3)]
-	w.minMX = []string{"none", "mtasts"}[s.T.Choose(st, 2)]
+	w.minMX = []string{"none", "mtasts", "dnssec"}[s.T.Choose(st, 3)]
+	w.useDANE = s.T.Choose(st, 2) == 1
+	w.useDNSSEC = s.T.Choose(st, 2) == 1
+	w.ext = s.T.Choose(st, 4) != 0
+	w.loopback = s.T.Choose(st, 4) != 0
+	w.zoneAD = s.T.Choose(st, 3) != 0
 	w.override = s.T.Choose(st, 2) == 1
 	w.relaxed = s.T.Choose(st, 2) == 1
 	w.stsMode = []string{"none", "testing", "enforce", "enforce", "error"}[s.T.Choose(st, 5)]
@@ -112,7 +128,8 @@ func (w *world) gen() {
 				p.Rcpt[r] = append(p.Rcpt[r], genO(s.T, num))
 			}
 		}
-		w.mxs = append(w.mxs, &mxSpec{host: host, pref: uint16(10 * (i + 1)), mx: &actors.ScriptedMX{Host: host, Plan: p, PKI: actors.SharedPKI()}})
+		tlsa := []string{"none", "none", "ee-match", "ee-mismatch", "ta-match", "unusable", "servfail"}[s.T.Choose(st, 7)]
+		w.mxs = append(w.mxs, &mxSpec{host: host, pref: uint16(10 * (i + 1)), tlsa: tlsa, mx: &actors.ScriptedMX{Host: host, Plan: p, PKI: actors.SharedPKI()}})
 	}
 	switch s.T.Choose(st, 3) {
 	case 0:
@@ -164,6 +181,12 @@ func (w *world) build() error {
 	if w.useSTS {
 		pol = append(pol, config.Node{Name: "mtasts", Children: []config.Node{node("cache", "ram")}})
 	}
+	if w.useDANE {
+		pol = append(pol, config.Node{Name: "dane"})
+	}
+	if w.useDNSSEC {
+		pol = append(pol, config.Node{Name: "dnssec"})
+	}
 	if w.useLocal {
 		pol = append(pol, config.Node{Name: "local_policy", Children: []config.Node{node("min_tls_level", w.minTLS), node("min_mx_level", w.minMX)}})
 	}
@@ -213,8 +236,80 @@ func (w *world) build() error {
 		}
 		return &mtasts.Policy{Mode: mode, MaxAge: 86400, MX: w.stsMX}, nil
 	}
-	w.rt.VerifSeams(res, w.net.Dialer("192.0.2.1:40000"), actors.SharedPKI().Roots, stsGet)
+	var ext *mdns.ExtResolver
+	if w.ext {
+		srv := "192.0.2.53"
+		if w.loopback {
+			srv = "127.0.0.1"
+		}
+		ext = mdns.VerifNewExtResolver(srv)
+		mdns.VerifExchange = w.dnsExchange
+	} else {
+		mdns.VerifExchange = nil
+	}
+	w.rt.VerifSeams(res, w.net.Dialer("192.0.2.1:40000"), actors.SharedPKI().Roots, stsGet, ext)
 	return nil
+}
+
+// dnsExchange is the simulated validating resolver behind ExtResolver.
+func (w *world) dnsExchange(ctx context.Context, q *dns.Msg, server string) (*dns.Msg, error) {
+	name := strings.ToLower(q.Question[0].Name)
+	qt := q.Question[0].Qtype
+	simrt.Point("dns:"+dns.TypeToString[qt], name)
+	r := new(dns.Msg)
+	r.SetReply(q)
+	r.AuthenticatedData = w.zoneAD
+	hdr := func(t uint16) dns.RR_Header {
+		return dns.RR_Header{Name: q.Question[0].Name, Rrtype: t, Class: dns.ClassINET, Ttl: 300}
+	}
+	isDest := name == destDomain+"." || name == "xn--e1aybc.example." || name == "тест.example."
+	switch qt {
+	case dns.TypeMX:
+		if isDest {
+			if w.dnsTempFail {
+				r.Rcode = dns.RcodeServerFailure
+				return r, nil
+			}
+			for _, m := range w.mxs {
+				r.Answer = append(r.Answer, &dns.MX{Hdr: hdr(dns.TypeMX), Preference: m.pref, Mx: m.host + "."})
+			}
+		}
+	case dns.TypeA:
+		for _, m := range w.mxs {
+			if name == m.host+"." {
+				r.Answer = append(r.Answer, &dns.A{Hdr: hdr(dns.TypeA), A: net.IPv4(203, 0, 113, 7)})
+			}
+		}
+	case dns.TypeTLSA:
+		for _, m := range w.mxs {
+			if name != "_25._tcp."+m.host+"." {
+				continue
+			}
+			leaf, _ := x509.ParseCertificate(m.mx.PKI.Cert(m.host, m.mx.Plan.Cert).Certificate[0])
+			mk := func(usage, sel, mt uint8, cert *x509.Certificate) *dns.TLSA {
+				data, _ := dns.CertificateToDANE(sel, mt, cert)
+				return &dns.TLSA{Hdr: hdr(dns.TypeTLSA), Usage: usage, Selector: sel, MatchingType: mt, Certificate: data}
+			}
+			switch m.tlsa {
+			case "ee-match":
+				r.Answer = append(r.Answer, mk(3, 1, 1, leaf))
+			case "ee-mismatch":
+				t := mk(3, 1, 1, leaf)
+				t.Certificate = strings.Repeat("ab", 32)
+				r.Answer = append(r.Answer, t)
+			case "ta-match":
+				r.Answer = append(r.Answer, mk(2, 0, 1, m.mx.PKI.CA))
+			case "unusable":
+				t := mk(1, 1, 1, leaf)
+				r.Answer = append(r.Answer, t)
+			case "servfail":
+				w.s.Stat("fault_dns_tlsa_servfail")
+				r.Rcode = dns.RcodeServerFailure
+				return r, nil
+			}
+		}
+	}
+	return r, nil
 }
 
 func (w *world) stsMatches(host string) bool {
@@ -386,10 +481,11 @@ func Run(s *simrt.Sim, a *harness.Args, r *harness.Result) {
 
 func (w *world) shape() string {
 	var sb strings.Builder
+	fmt.Fprintf(&sb, "dane=%v dnssec=%v ext=%v lo=%v ad=%v ", w.useDANE, w.useDNSSEC, w.ext, w.loopback, w.zoneAD)
 	fmt.Fprintf(&sb, "sts=%v/%s/%v local=%v/%s/%s ovr=%v relax=%v lim=%d dnsfail=%v|", w.useSTS, w.stsMode, w.stsMX, w.useLocal, w.minTLS, w.minMX, w.override, w.relaxed, w.destLimit, w.dnsTempFail)
 	for _, m := range w.mxs {
 		p := m.mx.Plan
-		fmt.Fprintf(&sb, "[%s tls=%v/%v cert=%v rtls=%v]", m.host, p.StartTLS, p.TLSFails, p.Cert, p.RequireTLS)
+		fmt.Fprintf(&sb, "[%s tls=%v/%v cert=%v rtls=%v tlsa=%s]", m.host, p.StartTLS, p.TLSFails, p.Cert, p.RequireTLS, m.tlsa)
 	}
 	for _, m := range w.msgs {
 		fmt.Fprintf(&sb, "{%s r=%d rt=%v ov=%v q=%v gap=%v}", m.id, len(m.rcpts), m.requireTLS, m.tlsOverride, m.quarantine, m.gap)
@@ -420,17 +516,40 @@ func (w *world) oracleC05() {
 			if tx.ConnTxN > 1 {
 				reuse = "reused"
 			}
-			certOK := tx.TLS && tx.Cert == actors.CertValid
+			// RFC 7672: TLSA records bind only if the address records and the
+			// TLSA RRset were DNSSEC-authenticated over a trusted (loopback)
+			// resolver; unauthenticated or absent RRsets impose nothing.
+			adTrusted := w.ext && w.loopback && w.zoneAD
+			daneInForce := w.useDANE && adTrusted && (mx.tlsa == "ee-match" || mx.tlsa == "ee-mismatch" || mx.tlsa == "ta-match" || mx.tlsa == "unusable")
+			daneMatch := false
+			switch mx.tlsa {
+			case "ee-match":
+				daneMatch = tx.TLS
+			case "ta-match":
+				daneMatch = tx.TLS && tx.Cert == actors.CertValid
+			}
+			certOK := tx.TLS && (tx.Cert == actors.CertValid || (daneInForce && daneMatch))
 			stsAvail := w.useSTS && (w.stsMode == "testing" || w.stsMode == "enforce")
-			mxMatched := stsAvail && w.stsMatches(mx.host)
+			mxMatched := (stsAvail && w.stsMatches(mx.host)) || (w.useDNSSEC && adTrusted)
 			fail := func(req, why string) {
-				s.Violate("C05/policy-unsatisfied/"+req+"/"+reuse, "message %s (requiretls=%v tls-required-no=%v) was transmitted to %s over connection #%d (transaction %d on it, TLS=%v, certificate %v): %s", m.id, m.requireTLS, m.tlsOverride, mx.host, tx.ConnID, tx.ConnTxN, tx.TLS, tx.Cert, why)
+				s.Violate("C05/policy-unsatisfied/"+req+"/"+reuse, "message %s (requiretls=%v tls-required-no=%v) was transmitted to %s over connection #%d (transaction %d on it, TLS=%v, certificate %v, TLSA %s, DNSSEC trusted=%v): %s", m.id, m.requireTLS, m.tlsOverride, mx.host, tx.ConnID, tx.ConnTxN, tx.TLS, tx.Cert, mx.tlsa, adTrusted, why)
 			}
 			if m.quarantine {
 				fail("quarantine", "quarantined messages must never be relayed")
 				continue
 			}
 			policiesOff := m.tlsOverride && w.override
+			if !policiesOff && w.useDANE && adTrusted && mx.tlsa == "servfail" {
+				fail("dane-discovery-failed", "the TLSA lookup for this MX failed (SERVFAIL) - delivery has to be deferred, not performed")
+			}
+			if !policiesOff && daneInForce {
+				if !tx.TLS {
+					fail("dane-tls", "DNSSEC-authenticated TLSA records exist, TLS is mandatory")
+				}
+				if mx.tlsa != "unusable" && !daneMatch {
+					fail("dane-match", "usable TLSA records exist and none matches what the server presented")
+				}
+			}
 			if !policiesOff {
 				if w.useSTS && w.stsMode == "enforce" {
 					if !w.stsMatches(mx.host) {
@@ -452,7 +571,10 @@ func (w *world) oracleC05() {
 						}
 					}
 					if w.minMX == "mtasts" && !mxMatched {
-						fail("min-mx", "local policy requires an MX authenticated by MTA-STS")
+						fail("min-mx", "local policy requires an MX authenticated by MTA-STS (or better)")
+					}
+					if w.minMX == "dnssec" && !(w.useDNSSEC && adTrusted) {
+						fail("min-mx", "local policy requires a DNSSEC-authenticated MX record set")
 					}
 				}
 			}
